@@ -125,6 +125,11 @@ def run(res: Results, idx: Index, tier: str) -> None:
     res.control("R-C11a", "unguarded builder.Swish is unavailable somewhere in the claimed range", bool(ctrl_missing))
     _control_guard_engine(res, facts)
     rule_e(res, idx, cg, tier)
+    from .c03 import inherited_settings
+    res.rule("R-C11f", "nested Loop / If / function scopes inherit the requested opset from an attribute that exists", floor=1)
+    for site, key, status, detail, func, setting in inherited_settings(idx):
+        if "opset" in setting:
+            res.add("R-C11f", status, site, key, detail, func)
 
 
 def _control_guard_engine(res: Results, facts: OpsetFacts) -> None:
